@@ -70,14 +70,14 @@ Open Scope string_scope.
 
 Definition bad_getter : item :=
   {| i_class := "BoundingBox"; i_rust_class := "PyBoundingBox"; i_wrapped := "BoundingBox"; i_name := "width";
-     i_rust_name := "get_width"; i_kind := KGetter; i_params := []; i_pre := [];
+     i_rust_name := "get_width"; i_kind := KGetter; i_params := []; i_ret := "f32"; i_pre := [];
      i_body := FieldRead "height" []; i_where := "" |}.
 Definition bad_swap : item :=
   {| i_class := "Universal2DBoxKalmanFilter"; i_rust_class := "PyUniversal2DBoxKalmanFilter";
      i_wrapped := "Universal2DBoxKalmanFilter"; i_name := "__new__"; i_rust_name := "new"; i_kind := KNew;
      i_params := [ {| p_name := "position_weight"; p_type := "f32"; p_default := DNum (1 # 20) |};
                    {| p_name := "velocity_weight"; p_type := "f32"; p_default := DNum (1 # 160) |} ];
-     i_pre := [];
+     i_ret := "Self"; i_pre := [];
      i_body := Delegate (RStatic "Universal2DBoxKalmanFilter") "new"
                  [ {| a_label := ""; a_srcs := ["velocity_weight"]; a_convs := [] |};
                    {| a_label := ""; a_srcs := ["position_weight"]; a_convs := [] |} ] ["wrap:PyUniversal2DBoxKalmanFilter"];
@@ -87,10 +87,10 @@ Definition bad_default : item :=
      i_name := "__new__"; i_rust_name := "new"; i_kind := KNew;
      i_params := [ {| p_name := "position_weight"; p_type := "f32"; p_default := DNum (1 # 10) |};
                    {| p_name := "velocity_weight"; p_type := "f32"; p_default := DNum (1 # 160) |} ];
-     i_pre := []; i_body := Other ""; i_where := "" |}.
+     i_ret := "Self"; i_pre := []; i_body := Other ""; i_where := "" |}.
 Definition bad_class : item :=
   {| i_class := "X"; i_rust_class := "PyX"; i_wrapped := "X"; i_name := "f"; i_rust_name := "f"; i_kind := KMethod;
-     i_params := []; i_pre := []; i_body := Delegate RInner "f" [] []; i_where := "" |}.
+     i_params := []; i_ret := ""; i_pre := []; i_body := Delegate RInner "f" [] []; i_where := "" |}.
 
 Example checkers_reject :
   getter_ok bad_getter = false /\ delegate_ok bad_swap = false /\ default_ok bad_default = false
